@@ -129,3 +129,13 @@ func vtraceRx(src any, b []byte) {
 	}
 	vtrace(src, "rx", int(b[0]), seq, len(b))
 }
+
+// VerifStopPongTicker stops the connection's pong ticker if it is still
+// running.  The harness calls it after it has taken its goroutine inventory,
+// so that a leaked ticker goroutine does not keep a virtual-time bubble alive.
+func (g *GoBackNConn) VerifStopPongTicker() {
+	defer func() { _ = recover() }()
+	if g.pongTicker != nil {
+		g.pongTicker.Stop()
+	}
+}
